@@ -63,6 +63,11 @@ func (ap *accountPool) canRollback(block *nom.AccountBlock) error {
 	frontier := ap.getFrontierAccountStore(address)
 	frontierIdentifier := frontier.Identifier()
 
+	// the first block of an account has no previous block to look up
+	if identifier.Height == 1 && previous == types.ZeroHashHeight {
+		return nil
+	}
+
 	// previous doesn't match
 	truePrevious, err := frontier.ByHeight(identifier.Height - 1)
 	if err != nil {
